@@ -18,7 +18,7 @@ of every worker in every order (`par_cover`), and when nothing is open and nothi
 incumbent is the optimum (`par_correct`).  No cache, no dominance store, no cutoff.
 The executable model `ParSolver.lean` (validated against the real solver trace by trace under the
 controlled scheduler) has the same sections; that its steps are steps of `ParCover` is by
-construction of the two definitions, not yet a checked refinement (`ParRefinesCover`, stated).
+construction of the two definitions here; the checked refinement is `ParSys.execRun_sound` (`Proofs/ParSysExecSound.lean`).
 The synchronisation side (no deadlock, completion only when closed) is C04. -/
 namespace Ddo.C03
 open Ddo.AbsSeq Ddo.ParCover
@@ -47,8 +47,7 @@ theorem par_correct {s t : PSt} (h : Run Phi opt Ach s t) (hi : PInv Phi opt Ach
 
 end
 
-/-- stated, not proved: every section of the executable model `ParSolver.lean` is a `Step` of `ParCover`
-    (or invisible to it) -/
-def ParRefinesCover : Prop := True
+/-! The link between the executable sections of `ParSolver.lean` and the abstract system is a checked refinement since
+    `ParSysExec.lean` / `Proofs/ParSysExecSound.lean` (`exec_sound`, `execRun_sound`) and the closed theorem of `Props/C03c.lean`. -/
 
 end Ddo.C03
